@@ -192,3 +192,12 @@ _ext("C11", "Since session 5: an implementation that raises on a request the mod
      "assertion known finding is accepted only where an independent replay of the slot bookkeeping agrees")
 _ext("C05", "Degenerate parameter cases (receivers without nonzeros, already symmetric data, empty mode selections, single-matrix Khatri-Rao, identity scalars / "
      "matrices, algorithms that stop at once) are swept for every operation, with object-level identity and write-through observations (54 theorems, 90 entries)")
+_ext("C19", "After the second triage round: 150 theorems (multiplicands given by shape for ttv, N-d arguments of khatrirao / from_vector / parse_shape, "
+     "coupled constructor arguments of sptensor / sptenmat, tenfun arity, short subscript rows rejected before the first write), equal-product "
+     "mismatches for mttkrp / ttt, a sparse_read family for out-of-range index-list entries")
+_ext("C08", "from_vector is asserted on 1-d / column / row parameter vectors with both weight flags against a written-out inverse of tovec (one defect "
+     "found by it repaired in /repo)")
+_ext("C17", "The row helpers are driven with every spelling of 'no rows' (1-d empty of either dtype, 0x0, 0xk of another width, 0xkx1) as either operand")
+_ext("C02", "ttv with ONE bare ndarray multiplicand on every mode (singleton and longer) of all five representations is asserted")
+_ext("C01", "Kruskal / Tucker / sum holders report ndims / shape consistently (sum tensors with exactly 1, 2, 3 parts); sptensor.spmatrix and Tucker tensors "
+     "with scipy.sparse factor matrices are covered (five defects found by them repaired in /repo)")
